@@ -7,7 +7,7 @@ callback for the document builder (argument -> kind handed to expression_t::crea
 which child).  Oracle: SPEC_KIND below (lexeme and role -> kind), transcribed from the UPPAAL language reference.
 """
 from ..front import AnalysisBroken
-from ..facts import walk, short
+from ..facts import walk, short, calls
 from ..stackmachine import Interp, Lin, Unsupported
 from .lalr import classify, build_spec
 
@@ -213,3 +213,50 @@ def run(chk, F, G, L, K, CG):
     if n < 40:
         raise AnalysisBroken("only %d lexeme/production pairs checked" % n)
     chk.analysed[rid_t] = {"operator_productions": len(prods), "lexeme_production_pairs": n}
+
+
+def run_literals(chk, F, L, rid="R-LITERAL"):
+    """Integer literals are represented exactly or rejected.  In every scanner action that returns T_NAT, the value
+    stored in yylval.number (an int) either comes from an int-typed conversion whose result is verified against the
+    lexeme (print it back and compare: the idiom of this scanner), or from a wider conversion that is compared with
+    the int range before it is narrowed."""
+    from ..lexer import token_name
+    chk.rule(rid, "in every scanner action returning T_NAT, the value assigned to yylval.number is not silently narrowed: "
+                  "an int conversion is verified against the lexeme, a wider one is range-checked against int first")
+    WIDE = ("long", "long long", "unsigned long", "unsigned long long", "int64_t", "uint64_t", "size_t", "intmax_t",
+            "unsigned int", "uint32_t")
+    n = 0
+    for r in L.rules:
+        if r.eof or r.action is None or r.sc != "INITIAL":
+            continue
+        toks = {token_name(x["e"]) for x in L.returns(r) if x.get("e") is not None}
+        if "T_NAT" not in toks:
+            continue
+        for a in walk(r.action):
+            if not (a.get("k") == "bin" and a.get("op") == "=" and a["lhs"].get("k") == "member" and
+                    a["lhs"].get("name") == "number"):
+                continue
+            rhs = a["rhs"]
+            while rhs.get("k") == "cast":
+                rhs = rhs["e"]
+            if rhs.get("k") == "int":
+                continue
+            n += 1
+            t = (rhs.get("t") or "").replace("const ", "").strip()
+            txt = short(r.action) if False else " ".join(short(x) for x in walk(r.action) if x.get("k") in ("call", "bin"))
+            if t in WIDE or any(w == t for w in WIDE):
+                ranged = any(k in txt for k in ("INT_MAX", "numeric_limits<int>", "2147483647", "INT32_MAX"))
+                chk.ob(rid, "%s|%s" % (r.text, short(rhs)[:30]), ranged,
+                       "scanner rule %s stores a `%s` value in the int yylval.number without comparing it with the int "
+                       "range: a literal above 2^31 that fits a %s is silently wrapped (4294967297 becomes 1)" %
+                       (r, t, t), "src/lexer.l:%s" % a.get("l"))
+            else:
+                # int-typed conversion (atoi): must be verified against the lexeme
+                verified = any(c.get("name") in ("strcmp", "strncmp", "compare") for c in calls(r.action)) and \
+                    any(token_name(x["e"]) == "T_ERROR" for x in L.returns(r) if x.get("e") is not None)
+                chk.ob(rid, "%s|%s" % (r.text, short(rhs)[:30]), verified,
+                       "scanner rule %s converts the literal with `%s` and does not verify the result against the "
+                       "lexeme: an out-of-range literal is accepted with a different value" % (r, short(rhs)[:40]),
+                       "src/lexer.l:%s" % a.get("l"))
+    if n == 0:
+        raise AnalysisBroken("no scanner action assigns a converted value to yylval.number")
